@@ -27,6 +27,9 @@ def make_jobs(rng, n, pid):
             j = c11.tree_contention_job(rng, "%s-%05d" % (pid, i))
         elif m == 1:
             j = c10.multigen_job(rng, "%s-%05d" % (pid, i))
+        elif m == 3 and i % 10 == 3:
+            # a resize that meets a tree bin (split into two halves, or re-used for the half that gets everything)
+            j = c10.tree_resize_job(rng, "%s-%05d" % (pid, i))
         elif m == 2:
             # retain / iteration racing with replacing writers (conditional removals on list and tree bins)
             import c07
